@@ -47,6 +47,16 @@ class G:
             return 0
         return self.pick(xs)
 
+    def bads(self, valid, options):
+        """the rules an invalid configuration breaks: one, and sometimes two at once (two broken fields can
+        cancel in a merged check)"""
+        if valid:
+            return set()
+        b = {self.pick(options)}
+        if len(options) > 1 and self.chance(0.35):
+            b.add(self.pick(options))
+        return b
+
     def rawbytes(self, n):
         return bytes(self.r.randrange(256) for _ in range(n))
 
@@ -89,38 +99,41 @@ class G:
         return n, ' '.join(self.rb(valid=(i != bad)) for i in range(n))
 
     def sr(self, valid=True, pad=None):
-        bad = None if valid else self.pick(['pad', 'blocks'])
-        p = self.pad(valid=(bad != 'pad')) if pad is None else pad
-        n, bs = self.blocks(valid=(bad != 'blocks'))
+        bad = self.bads(valid, ['pad', 'blocks'])
+        p = self.pad(valid=('pad' not in bad)) if pad is None else pad
+        n, bs = self.blocks(valid=('blocks' not in bad))
         return ('sr %d %d %d %d %d %d %d %s' % (p, self.ssrc(), self.u64(), self.u32(), self.u32(), self.u32(), n, bs)).strip()
 
     def rr(self, valid=True, pad=None):
-        bad = None if valid else self.pick(['pad', 'blocks'])
-        p = self.pad(valid=(bad != 'pad')) if pad is None else pad
-        n, bs = self.blocks(valid=(bad != 'blocks'))
+        bad = self.bads(valid, ['pad', 'blocks'])
+        p = self.pad(valid=('pad' not in bad)) if pad is None else pad
+        n, bs = self.blocks(valid=('blocks' not in bad))
         return ('rr %d %d %d %s' % (p, self.ssrc(), n, bs)).strip()
 
     def app(self, valid=True, pad=None, maxdata=64):
-        bad = None if valid else self.pick(['pad', 'subtype', 'name', 'nameascii', 'data'])
-        p = self.pad(valid=(bad != 'pad')) if pad is None else pad
-        st = self.pick([0, 1, 30, 31, self.r.randrange(32)]) if bad != 'subtype' else self.pick([32, 33, 255, self.r.randrange(32, 256)])
-        if bad == 'name':
+        bad = self.bads(valid, ['pad', 'subtype', 'name', 'nameascii', 'data', 'data', 'pad'])
+        p = self.pad(valid=('pad' not in bad)) if pad is None else pad
+        st = self.pick([0, 1, 30, 31, self.r.randrange(32)]) if 'subtype' not in bad else self.pick([32, 33, 255, self.r.randrange(32, 256)])
+        if 'name' in bad:
             name = self.utf8(self.pick([5, 6, 8]))
-        elif bad == 'nameascii':
+        elif 'nameascii' in bad:
             name = self.pick(['é'.encode(), 'aé'.encode(), '€'.encode(), 'é'.encode() * 2, '😀'.encode()])
         else:
             name = bytes(self.r.randrange(0, 0x80) if self.chance(0.1) else self.r.randrange(0x21, 0x7f)
                          for _ in range(self.pick([0, 1, 2, 3, 4, 4, 4])))
         dl = 4 * self.pick([0, 0, 1, 2, 3, self.r.randint(0, maxdata // 4)])
-        if bad == 'data':
+        if 'data' in bad:
             dl += self.pick([1, 2, 3])
+            if 'pad' in bad and pad is None and self.chance(0.7):
+                # residues that cancel: data and padding both unaligned, their sum aligned
+                p = (4 - dl % 4) + 4 * self.pick([0, 1, 62])
         return 'app %d %d %d %s %s' % (p, self.ssrc(), st, hx(name), hx(self.rawbytes(dl)))
 
     def bye(self, valid=True, pad=None):
-        bad = None if valid else self.pick(['pad', 'sources', 'reason'])
-        p = self.pad(valid=(bad != 'pad')) if pad is None else pad
-        n = self.smallcount(0, 31) if bad != 'sources' else self.pick([32, 33, 50])
-        if bad == 'reason':
+        bad = self.bads(valid, ['pad', 'sources', 'reason'])
+        p = self.pad(valid=('pad' not in bad)) if pad is None else pad
+        n = self.smallcount(0, 31) if 'sources' not in bad else self.pick([32, 33, 50])
+        if 'reason' in bad:
             rl = self.pick([256, 257, 300])
         else:
             rl = self.pick([0, 0, 1, 2, 3, 4, 5, 6, 7, 8, 254, 255, self.r.randint(0, 255), self.r.randint(0, 40)])
@@ -236,13 +249,15 @@ class G:
         return 'fb %s %d %d %d %s' % (k, p, self.ssrc(), self.ssrc(), f)
 
     def unk(self, valid=True, pad=None, pt=None):
-        bad = None if valid else self.pick(['pad', 'count', 'data'])
-        p = self.pad(valid=(bad != 'pad')) if pad is None else pad
+        bad = self.bads(valid, ['pad', 'count', 'data', 'data', 'pad'])
+        p = self.pad(valid=('pad' not in bad)) if pad is None else pad
         ty = pt if pt is not None else self.pick([0, 1, 77, 192, 199, 207, 208, 209, 255, 200, 203, self.r.randrange(256)])
-        cnt = self.pick([0, 1, 30, 31, self.r.randrange(32)]) if bad != 'count' else self.pick([32, 33, 255])
+        cnt = self.pick([0, 1, 30, 31, self.r.randrange(32)]) if 'count' not in bad else self.pick([32, 33, 255])
         dl = 4 * self.pick([0, 1, 2, self.r.randint(0, 12)])
-        if bad == 'data':
+        if 'data' in bad:
             dl += self.pick([1, 2, 3])
+            if 'pad' in bad and pad is None and self.chance(0.7):
+                p = (4 - dl % 4) + 4 * self.pick([0, 1, 62])
         return 'unk %d %d %d %s' % (p, ty, cnt, hx(self.rawbytes(dl)))
 
     CUSTOM_PTS = [0, 77, 192, 199, 207, 210, 242, 255]
